@@ -91,4 +91,18 @@ CHECKS["C15"] = {
             "bit-exact against the interpreter; oracle on the traces (documented weights). WeighInvVol / ERC / MeanVar / Randomly, TargetVol and PTE_Rebalance: documented "
             "post-conditions recomputed with numpy over the documented [now - lag - lookback, now - lag] window on the real code (this found and fixed the TargetVol defect).",
     "note": COMMON_NOTE + " ffn / sklearn / scipy kernels are oracles: their post-conditions are tested, not proved; limit_weights' cap-and-total statement is decided by oracle + correspondence."}
+CHECKS["C04"] = {
+    "category": "proof",
+    "text": "Partial theorems: the tradability filter reads only the current row of the universe, lookback windows never reach past the current row, and window "
+            "data counts are functions of the data prefix (any number type). The whole-run statement is decided by (a) perturbation pairs on the implementation: every "
+            "generated backtest is re-run with every supplied value dated after a random cut replaced, and all history rows and per-run temp traces up to the cut must be "
+            "identical token for token; (b) the correspondence with the interpreter, which can only index data at rows <= now (market-value, nested and fixed-income runs).",
+    "note": COMMON_NOTE + " A whole-interpreter non-interference theorem is not proved; ffn / sklearn kernels are trusted not to read beyond their argument."}
+CHECKS["C20"] = {
+    "text": "Theorems: UpdateRisk records unit risk x position x multiplier on a security (0 when flat) and the sum of the children's risks on every strategy of the tree; "
+            "the one-instrument hedge q = (1 / (unit risk x multiplier)) x (-risk) makes the hedged measure exactly zero, and without the multiplier in the Jacobian (the "
+            "code before the repair) it does not (checked witness); SelectActive never returns a ticker recorded as closed or rolled; closing leaves no position. "
+            "Correspondence: risk backtests (flat / nested, multipliers, own-index unit-risk tables, history depth), FI backtests with close / roll tables; oracles on risks "
+            "and close dates; multi-measure / pseudo-inverse hedges: post-condition suite on the real code. Known finding K14.",
+    "note": COMMON_NOTE + " np.linalg.inv / pinv are oracles: the k x k and least-squares cases are tested on the implementation, not proved; per-security risk history frames are not modelled."}
 NOT_APPLICABLE = {}
